@@ -103,6 +103,92 @@ class Src:
             else:
                 self._index( child, prefix )
 
+    # ---- a variant of this file in which the calls, inside ONE function, of small local helpers are replaced by the helpers' bodies
+    def inlined( self, qualname ):
+        """-> a Src whose tree is a copy of this one with, inside function `qualname`, every call of a helper ( a def nested in that function, or a
+        module-level def of the same file ) replaced by the helper's body: expression helpers ( body = one `return <expr>` ) where they are
+        called, procedure helpers ( no value returned, nothing yielded ) where they are called as a statement.  Parameters are replaced by
+        the argument expressions ( defaults for absent ones ); inlined nodes carry the position of the call.  Rules whose anchors are
+        statement patterns of one function stay decidable when a refactoring moved a fragment into such a helper."""
+        import copy
+        new = object.__new__( Src )
+        new.rel, new.path, new.digest, new.text = self.rel, self.path, self.digest, self.text
+        new.tree = copy.deepcopy( self.tree )
+        new.parent, new.defs = {}, {}
+        new._index( new.tree, '' )
+        fn = new.get( qualname )
+        cands = [ d for d in new.tree.body if isinstance( d, ast.FunctionDef ) ] + [ d for d in ast.walk( fn ) if isinstance( d, ast.FunctionDef ) and d is not fn ]
+        helpers = {}
+        for d in cands:
+            a = d.args
+            if d.decorator_list or a.vararg or a.kwarg or a.kwonlyargs or getattr( a, 'posonlyargs', [] ):
+                continue
+            body = [ b for b in d.body if not ( isinstance( b, ast.Expr ) and isinstance( b.value, ast.Constant ) and isinstance( b.value.value, str )) ]
+            names = [ x.arg for x in a.args ]
+            dflt = dict( zip( names[len( names ) - len( a.defaults ):], a.defaults ))
+            if len( body ) == 1 and isinstance( body[0], ast.Return ) and body[0].value is not None:
+                helpers[d.name] = ( 'expr', names, dflt, body[0].value )
+            elif body and not any( isinstance( x, ( ast.Yield, ast.YieldFrom )) or ( isinstance( x, ast.Return ) and x.value is not None ) for b in body for x in ast.walk( b )) \
+                 and not any( isinstance( x, ast.Return ) for x in body[:-1] for x in ast.walk( x )):
+                helpers[d.name] = ( 'proc', names, dflt, [ b for b in body if not isinstance( b, ast.Return ) ] )
+        if not helpers:
+            return new
+        def bind( h, call ):
+            kind, names, dflt, _ = h
+            if len( call.args ) > len( names ) or any( k.arg is None or k.arg not in names for k in call.keywords ) or any( isinstance( x, ast.Starred ) for x in call.args ):
+                return None
+            m = dict( zip( names, call.args ))
+            m.update( { k.arg: k.value for k in call.keywords } )
+            for n in names:
+                if n not in m:
+                    if n not in dflt:
+                        return None
+                    m[n] = dflt[n]
+            return m
+        def subst( node, m, site ):
+            class Sub( ast.NodeTransformer ):
+                def visit_Name( self, n ):
+                    return copy.deepcopy( m[n.id] ) if n.id in m and isinstance( n.ctx, ast.Load ) else n
+                def visit_BoolOp( self, n ):
+                    self.generic_visit( n )
+                    if isinstance( n.op, ast.Or ):			# <falsy constant> or X  ->  X
+                        vals = [ v for v in n.values[:-1] if not ( isinstance( v, ast.Constant ) and not v.value ) ] + n.values[-1:]
+                        return vals[0] if len( vals ) == 1 else ast.BoolOp( op=n.op, values=vals )
+                    return n
+            out = Sub().visit( copy.deepcopy( node ))
+            for x in ast.walk( out ):
+                if hasattr( x, 'lineno' ) or isinstance( x, ( ast.expr, ast.stmt )):
+                    ast.copy_location( x, site )
+            return out
+        class Inl( ast.NodeTransformer ):
+            def visit_FunctionDef( self, n ):
+                if n is not fn and n.name in helpers:
+                    return n					# the helper itself stays as it is
+                self.generic_visit( n ); return n
+            def visit_Call( self, n ):
+                self.generic_visit( n )
+                h = helpers.get( n.func.id ) if isinstance( n.func, ast.Name ) else None
+                if h and h[0] == 'expr':
+                    m = bind( h, n )
+                    if m is not None:
+                        return subst( h[3], m, n )
+                return n
+            def visit_Expr( self, n ):
+                c = n.value
+                h = helpers.get( c.func.id ) if isinstance( c, ast.Call ) and isinstance( c.func, ast.Name ) else None
+                if h and h[0] == 'proc' and all( isinstance( x, ( ast.Name, ast.Attribute, ast.Constant )) for x in c.args + [ k.value for k in c.keywords ] ):
+                    m = bind( h, c )
+                    if m is not None:
+                        return [ subst( b, m, n ) for b in h[3] ]
+                self.generic_visit( n ); return n
+        for i, b in enumerate( list( fn.body )):
+            pass
+        fn.body = [ y for b in fn.body for y in ( lambda r: r if isinstance( r, list ) else [ r ] )( Inl().visit( b )) ]
+        ast.fix_missing_locations( new.tree )
+        new.parent, new.defs = {}, {}
+        new._index( new.tree, '' )
+        return new
+
     # ---- lookups
     def get( self, qualname, required=True, which=-1 ):
         d = self.defs.get( qualname )
